@@ -66,6 +66,12 @@ impl<'a> Iterator for TrieEntryIter<'a> {
             // Unwrap is safe: access is always in bounds
             // It is optimized away: https://rust.godbolt.org/z/va9K3az4n
             let k = self.data.get(i).unwrap();
+            if *k == 0 {
+                // NUL is the key terminator of the double array and never a part of a key;
+                // unused (zero) units have label 0, so without this check NUL bytes
+                // of the input would be silently skipped, e.g. "a\0b" would match the key "ab"
+                return None;
+            }
             node_pos ^= *k as usize;
             unit = self.get(node_pos) as usize;
             if Trie::label(unit) != *k as usize {
